@@ -37,7 +37,7 @@ import (
 //verif:stub go/types.LookupFieldOrMethod = c09Lookup
 //verif:stub (*go.uber.org/nilaway/config.Config).IsPkgInScope = c09InScope
 
-var ndHarnesses = map[string]func(){"Harness_C09": Harness_C09}
+var ndHarnesses = map[string]func(){"Harness_C09": Harness_C09, "Harness_C09_Real": Harness_C09_Real}
 
 type c09Types struct {
 	I, J, S       types.Type // named interface types and the struct type
